@@ -259,6 +259,23 @@ func interactionPrograms() []string {
 		out = append(out, fmt.Sprintf(`x_ERRTEXT = 0; f = func(n) {r = catch(%s); if r.err {"E"} else {r.value}}; println(f(1), f(2))`, code))
 		out = append(out, fmt.Sprintf(`x_ERRTEXT = 0; for n = 1:3 {r = catch(%s); println(if r.err {"E"} else {r.value})}`, code))
 	}
+	// (Q) the extra arguments of a variadic call kept after the call (as they are, sliced, wrapped), for every count around the
+	//     small / large array threshold, looked at after OTHER calls with other argument lists have been made
+	for _, n := range []int{0, 1, 7, 8, 9, 10, 17} {
+		args := make([]string, n)
+		for i := range args {
+			args[i] = fmt.Sprint(i + 1)
+		}
+		al := strings.Join(args, ", ")
+		for _, keep := range []string{"..", "[..]", "..[1:]", `{"k": ..}`, "func() {..}", "[len(..), ..]"} {
+			get := "a"
+			if keep == "func() {..}" {
+				get = "a()"
+			}
+			out = append(out, fmt.Sprintf(`pack = func(..) {%s}; add = func(x, y) {x + y}; a = pack(%s); add(40, 50); add(60, 70); pack(100, 200, 300, 400, 500, 600, 700, 800, 900, 1000, 1100); println(%s); b = pack(%s); println(%s, b == a || true)`, keep, al, get, al, get))
+			out = append(out, fmt.Sprintf(`pack = func(h, ..) {%s}; a = pack(0, %s); for i = 3 {pack(i, i, i, i, i, i, i, i, i, i, i, i)}; println(%s)`, keep, strings.TrimSuffix("0, "+al, ", "), get))
+		}
+	}
 	// containers reached through references
 	for _, a := range []string{"x[0] = 5", `x.k = 5`, "del(x[0])", "x = x + 1", "x = x + x", "del(x)"} {
 		for _, init := range []string{"[1, 2, 3]", `{"k": 1, 0: 2}`, "1:12", `{1: 1, 2: 2, 3: 3, 4: 4, 5: 5}`} {
